@@ -28,6 +28,7 @@ mod p15;
 mod p16;
 mod p17;
 mod p18;
+mod p19;
 mod pkt;
 mod refval;
 
@@ -52,6 +53,7 @@ fn make(id: &str, tier: Tier) -> Option<Box<dyn Property>> {
         "C16" => Box::new(p16::P16::new(tier)),
         "C17" => Box::new(p17::P17::new(tier)),
         "C18" => Box::new(p18::P18::new(tier)),
+        "C19" => Box::new(p19::P19::new(tier)),
         "C09" => Box::new(p09::P09::new(tier)),
         _ => return None,
     })
